@@ -1,7 +1,7 @@
 """C01 — single-layer Galerkin entries equal the 4-fold heat-kernel integral."""
 from ..common import seed_rng
 from ..formulas_tie import validate
-from ..slchecks import (RealOps, StubElem, aspect, corr_bilform, describe, dummy_children, make_curve, ok_aspect, random_real_mesh,
+from ..slchecks import (RealOps, StubElem, addr_interval, aspect, corr_bilform, describe, dummy_children, make_curve, ok_aspect, random_real_mesh,
                         seam_and_corner_pairs)
 from .C04 import translate  # noqa: F401  (same generated formulas)
 
@@ -114,13 +114,11 @@ def search(res, tier, boost=False):
             ops = RealOps(gamma, MeshParametrized(gamma))
         for it in range((18 if tier == 'quick' else 90) * (2 if boost else 1)):
             pc = rng.randrange(len(gamma.pw_gamma))
-            lo, hi = float(gamma.pw_start[pc]), float(gamma.pw_start[pc + 1])
             la, k = rng.randint(0, 3), 1 + it % 6
-            ha = (hi - lo) * 2.0**-la
             ma = rng.randrange(2**la)
-            a = (lo + ma * ha, lo + (ma + 1) * ha)
-            hb = ha * 2.0**-k
-            b = (a[0], a[0] + hb) if (it // 6) % 2 == 0 else (a[1] - hb, a[1])
+            # end points by the mesh's own bisection arithmetic (bit-identical shared end points)
+            a = addr_interval(gamma, (pc, la, ma))
+            b = addr_interval(gamma, (pc, la + k, ma * 2**k if (it // 6) % 2 == 0 else (ma + 1) * 2**k - 1))
             ta, tb = rng.choice(times), rng.choice(times)
             if max(ta[0], tb[0]) >= min(ta[1], tb[1]):
                 continue
